@@ -65,9 +65,10 @@ func (e *Engine) mapLookup(st *State, m MapV, k Value, zero Value) (Value, *Term
 	o := e.obj(st, m.obj)
 	found := e.False
 	val := zero
+	nn := e.mapNonNil(m)
 	for _, c := range o.cells {
 		en := c.(StructV)
-		hit := e.And(en.f[2].(*Term), e.keyEq(st, en.f[0], k))
+		hit := e.And(nn, e.And(en.f[2].(*Term), e.keyEq(st, en.f[0], k)))
 		if hit.IsFalse() {
 			continue
 		}
@@ -83,7 +84,7 @@ func (e *Engine) mapLen(st *State, m MapV) *Term {
 		return n
 	}
 	for _, c := range e.obj(st, m.obj).cells {
-		pr := c.(StructV).f[2].(*Term)
+		pr := e.And(e.mapNonNil(m), c.(StructV).f[2].(*Term))
 		n = e.Bin(OpAdd, n, e.Ite(pr, e.Const(64, 1), e.Const(64, 0)))
 	}
 	return n
